@@ -1,6 +1,7 @@
 package core
 
 import (
+	"reflect"
 	"bufio"
 	"encoding/json"
 	"fmt"
@@ -455,6 +456,31 @@ func TestC10RoundTripValues(t *testing.T) {
 					Case: map[string]any{"first": gen.Norm(v), "second": gen.Norm(sib)}, Observed: fmt.Sprintf("%s err=%v", enc2, err), Expected: want2})
 			}
 			col.Label("roundtrip:sibling-event")
+		}
+		// decoding into a value that held something else before: what the text says, nothing of
+		// what was there (a decoder that fills only the members present in the text leaves the
+		// rest of the previous message behind)
+		for _, probe := range aliasProbes() {
+			if fmt.Sprintf("%T", probe) != typ {
+				continue
+			}
+			pb, err := json.Marshal(probe)
+			if err != nil {
+				continue
+			}
+			dirty := reflect.New(reflect.TypeOf(probe).Elem()).Interface()
+			if json.Unmarshal(pb, dirty) != nil {
+				continue
+			}
+			if err := json.Unmarshal(enc, dirty); err != nil {
+				hx.Fail(t, ev.Failure{Property: "C10", Signature: "roundtrip-reused-value", Clause: "encoding and decoding again yields an equal value, also when the target held another message before (" + typ + ")",
+					Case: map[string]any{"value": gen.Norm(v), "previous": gen.Norm(probe)}, Observed: err.Error(), Expected: want})
+			}
+			if g := hx.JSON(gen.Norm(dirty)); g != want {
+				hx.Fail(t, ev.Failure{Property: "C10", Signature: "roundtrip-reused-value", Clause: "encoding and decoding again yields an equal value, also when the target held another message before (" + typ + ")",
+					Case: map[string]any{"value": gen.Norm(v), "previous": gen.Norm(probe)}, Observed: g, Expected: want})
+			}
+			col.Label("roundtrip:reused-target")
 		}
 		// the encoding must be plain JSON an independent decoder understands
 		var generic any
